@@ -21,13 +21,13 @@ func (harness) Configs(tier string) []xplore.Config {
 	case "C04":
 		return configs04(tier)
 	case "C05":
-		return configs05(tier)
+		return xplore.WithReverse(configs05(tier))
 	case "C07":
-		return configs07(tier)
+		return xplore.WithReverse(configs07(tier))
 	case "C08":
-		return configs08(tier)
+		return xplore.WithReverse(configs08(tier))
 	case "C14":
-		return configs14(tier)
+		return xplore.WithReverse(configs14(tier))
 	case "C12":
 		return configs12(tier)
 	}
